@@ -186,7 +186,7 @@ func (c *Ctx) ruleReconnectResumes(rr *RuleRep) {
 		if !ok || k.Call.IsInvoke() || k.Call.StaticCallee() != nil {
 			return
 		}
-		ld, ok := k.Call.Value.(*ssa.UnOp)
+		ld, ok := c.ResolveAt(k.Call.Value, in).(*ssa.UnOp)
 		if !ok {
 			return
 		}
